@@ -177,6 +177,24 @@ fn load_scenarios(path: &str) -> Vec<Scenario> {
     }
 }
 
+/// Line-delimited scenario file, only the lines with index % of == part (streamed)
+fn load_scenarios_part(path: &str, part: usize, of: usize) -> Vec<Scenario> {
+    let f = std::io::BufReader::new(std::fs::File::open(path).expect("scenario file"));
+    let mut out = Vec::new();
+    let mut i = 0usize;
+    for l in f.lines() {
+        let l = l.expect("scenario line");
+        if l.trim().is_empty() {
+            continue;
+        }
+        if i % of == part {
+            out.push(Scenario::from_json(&serde_json::from_str(&l).expect("scenario line")));
+        }
+        i += 1;
+    }
+    out
+}
+
 fn trace_key(api: &[Value]) -> u64 {
     let mut h = DefaultHasher::new();
     for ev in api {
@@ -277,7 +295,17 @@ fn main() {
         churn(&args);
         return;
     }
-    let scns = load_scenarios(arg(&args, "--scn").expect("--scn"));
+    // sequential histories (mode default) are sharded by scenario: a shard only parses its own lines
+    let shard_by_scn = cmd == "explore" && arg(&args, "--mode") == Some("default");
+    let (part0, of0): (usize, usize) = (
+        arg(&args, "--part").and_then(|s| s.parse().ok()).unwrap_or(0),
+        arg(&args, "--of").and_then(|s| s.parse().ok()).unwrap_or(1),
+    );
+    let scns = if shard_by_scn && of0 > 1 {
+        load_scenarios_part(arg(&args, "--scn").expect("--scn"), part0, of0)
+    } else {
+        load_scenarios(arg(&args, "--scn").expect("--scn"))
+    };
     let only = arg(&args, "--only");
     let record_ops = arg(&args, "--ops-out").is_some() || cmd == "replay";
     let quarantine = !args.iter().any(|a| a == "--no-quarantine");
@@ -307,8 +335,13 @@ fn main() {
             let bound: usize = arg(&args, "--bound").and_then(|s| s.parse().ok()).unwrap_or(2);
             let max_runs: usize = arg(&args, "--runs").and_then(|s| s.parse().ok()).unwrap_or(1000);
             // shard: this process handles runs with index % of == part
-            let part: usize = arg(&args, "--part").and_then(|s| s.parse().ok()).unwrap_or(0);
-            let of: usize = arg(&args, "--of").and_then(|s| s.parse().ok()).unwrap_or(1);
+            let mut part: usize = arg(&args, "--part").and_then(|s| s.parse().ok()).unwrap_or(0);
+            let mut of: usize = arg(&args, "--of").and_then(|s| s.parse().ok()).unwrap_or(1);
+            if shard_by_scn && of > 1 {
+                // already selected while loading
+                part = 0;
+                of = 1;
+            }
             for (si, scn) in scns.iter().enumerate() {
                 if let Some(o) = only {
                     if scn.name != o {
